@@ -509,4 +509,12 @@ func runC05(r *Run) {
 		}
 		c05One(r, tb, hists[hi], built[hi].te, built[hi].re, vars, src)
 	}
+	for i := 0; i < n/5; i++ {
+		g := &progGen{r: r, vars: stdVars, fns: stdFns}
+		hi := r.Rng.Intn(len(hists))
+		g.useFns = hi >= 1 && hi <= 3
+		src := g.sharedVarProg(r.Rng.Intn(4) != 0)
+		r.Count("shared-variable programs")
+		c05One(r, tb, hists[hi], built[hi].te, built[hi].re, vars, src)
+	}
 }
